@@ -48,10 +48,11 @@ static void hh_append(const u8* p, size_t n)
     if (g_hhn + n > 65536) { size_t drop = g_hhn + n - 65536; memmove(g_hh, g_hh + drop, g_hhn - drop); g_hhn -= drop; }
     memcpy(g_hh + g_hhn, p, n); g_hhn += n;
 }
+static LZ4_streamHC_t* g_shared_hs = NULL;   /* mode c18: ONE stream for all sessions (LZ4_resetStreamHC_fast between them), interleaved with one-shot fast-reset calls */
 static void hc_session(int thorough)
 {
     static const int levels[] = {3, 4, 5, 6, 7, 8, 9, 9, 3, 1, 2, 10, 11, 12};
-    size_t A = thorough ? (600u << 10) : (300u << 10); u8* arena = xalloc(A + 16); u8* dbuf[2]; LZ4_streamHC_t* hs = LZ4_createStreamHC(); int nb = 2 + (int)rndn(8), b, level = levels[rndn(14)], geometry = (int)rndn(3); size_t pos = 0, maxb = thorough ? 30000 : 12000;
+    size_t A = thorough ? (600u << 10) : (300u << 10); u8* arena = xalloc(A + 16); u8* dbuf[2]; LZ4_streamHC_t* hs = g_shared_hs ? g_shared_hs : LZ4_createStreamHC(); int nb = 2 + (int)rndn(8), b, level = levels[rndn(14)], geometry = (int)rndn(3); size_t pos = 0, maxb = thorough ? 30000 : 12000;
     u8* dict = NULL; size_t dn = 0;
     dbuf[0] = xalloc(maxb + 16); dbuf[1] = xalloc(maxb + 16);
     LZ4_resetStreamHC_fast(hs, level); g_hhn = 0;
@@ -80,7 +81,8 @@ static void hc_session(int thorough)
         if (r <= 0) break;
     }
     n_sessions++;
-    free(arena); free(dbuf[0]); free(dbuf[1]); free(dict); LZ4_freeStreamHC(hs);
+    if (g_shared_hs && rndp(40)) { size_t jn = 100 + rndn(20000); u8* j = xalloc(jn); u8* jo = xalloc((size_t)LZ4_compressBound((int)jn)); gen_data(j, jn, (int)rndn(D_KINDS)); LZ4_compress_HC_extStateHC_fastReset(g_shared_hs, (const char*)j, (char*)jo, (int)jn, LZ4_compressBound((int)jn), levels[rndn(14)]); n_calls++; free(j); free(jo); }   /* an unrelated one-shot use of the same state */
+    free(arena); free(dbuf[0]); free(dbuf[1]); free(dict); if (!g_shared_hs) LZ4_freeStreamHC(hs);
 }
 
 int main(int argc, char** argv)
@@ -91,7 +93,8 @@ int main(int argc, char** argv)
     mode = argv[1]; thorough = !strcmp(argv[2], "thorough"); seed = strtoull(argv[3], 0, 10);
     harness_init(argv[4], argv[5], seed);
     maxn = thorough ? 120000 : 40000; data = xalloc(maxn + 16);
-    if (!strcmp(mode, "c11")) { for (i = 0; i < (thorough ? SH(3000) : 260); i++) hc_session(thorough); }
+    if (!strcmp(mode, "c18")) g_shared_hs = LZ4_createStreamHC();
+    if (!strcmp(mode, "c11") || !strcmp(mode, "c18")) { for (i = 0; i < (thorough ? SH(3000) : 260); i++) hc_session(thorough); }
     else for (i = 0; i < (thorough ? SH(6000) : 500); i++) {
         size_t n = rndp(20) ? rndn(40) : rndp(60) ? rndn(3000) : rndn((u32)maxn); int kind = rndp(35) ? D_LZLIKE : (int)rndn(D_KINDS);
         gen_data(data, n, kind);
